@@ -102,7 +102,11 @@ type c28ptrArg struct {
 	pos       token.Pos
 }
 
+// c28cur is the state of the current run, for the rules added in c28rN.go (they run after runC28).
+var c28cur *c28
+
 func runC28(r *Run) {
+	c28cur = nil
 	x := &c28{r: r, ptrArgs: map[string]*c28ptrArg{}, isNode: map[*types.Named]bool{}, copyFns: map[*types.Func]*FuncInfo{}, decls: map[*types.Func]*FuncInfo{}, ctors: map[*types.Func]*c28ctor{}, nilable: map[string][]string{}}
 	r.Exhaust = true
 	x.astPk, x.utilPk = r.P.Pkg("ast"), r.P.Pkg("ast/astutil")
@@ -153,6 +157,7 @@ func runC28(r *Run) {
 		return
 	}
 	x.gatherNilable()
+	c28cur = x
 
 	copyName, walkName := x.copyNd.Name(), x.walk.Name()
 	for _, nt := range x.nodes {
@@ -241,6 +246,29 @@ func (x *c28) resolveRoles() {
 			}
 		}
 	}
+}
+
+// isVisitMethod: fn is a method of the interface the walker receives as its visitor.
+func (x *c28) isVisitMethod(fn *types.Func) bool {
+	if x.walk == nil || fn == nil {
+		return false
+	}
+	sig := fn.Type().(*types.Signature)
+	if sig.Recv() == nil {
+		return false
+	}
+	ws := x.walk.Obj.Type().(*types.Signature)
+	np := x.nodeParam(x.walk)
+	for i := 0; i < ws.Params().Len(); i++ {
+		p := ws.Params().At(i)
+		if p == np {
+			continue
+		}
+		if _, isI := p.Type().Underlying().(*types.Interface); isI && types.Identical(sig.Recv().Type(), p.Type()) {
+			return true
+		}
+	}
+	return false
 }
 
 // nodeParam returns the parameter of fi whose type is the Node or Expression interface.
@@ -816,6 +844,8 @@ type c28eval struct {
 	rets   []c28val
 	retPos []token.Pos
 	sinks  []c28sink
+	visits []c28sink // values handed to the visitor's own method (an inlined step of the walk)
+	loops2 bool      // evaluate the body of a for statement a second time (a variable rebound at the end of the body is seen by its beginning); R-2d only: sinks are then listed twice
 	unk    []string
 	errs   []string
 	depth  int
@@ -1142,6 +1172,19 @@ func (e *c28eval) call(n *ast.CallExpr) c28val {
 		}
 		return c28val{}
 	}
+	// the visitor's method called by hand on a node: recorded (R-2d), it produces no node
+	if e.x.isVisitMethod(fn) {
+		for _, a := range n.Args {
+			v := e.consume(e.expr(a))
+			if v.unk != "" {
+				return v
+			}
+			for _, s := range v.srcs {
+				e.visits = append(e.visits, c28sink{path: s.path, pos: n.Pos(), val: v})
+			}
+		}
+		return c28val{}
+	}
 	// a copy function
 	if _, ok := e.x.copyFns[fn]; ok && len(n.Args) == 1 {
 		v := e.consume(e.expr(n.Args[0]))
@@ -1231,7 +1274,7 @@ func (e *c28eval) call(n *ast.CallExpr) c28val {
 		if e.depth >= 4 {
 			return e.unknown(n.Pos(), "helper nesting too deep at %s", fn.Name())
 		}
-		sub := &c28eval{x: e.x, info: gi.Pkg.TypesInfo, fi: gi, self: nil, env: map[types.Object]*c28var{}, depth: e.depth + 1}
+		sub := &c28eval{x: e.x, info: gi.Pkg.TypesInfo, fi: gi, self: nil, env: map[types.Object]*c28var{}, depth: e.depth + 1, loops2: e.loops2}
 		sig := fn.Type().(*types.Signature)
 		for i := 0; i < sig.Params().Len() && i < len(n.Args); i++ {
 			sub.bind(sig.Params().At(i), e.consume(e.expr(n.Args[i])))
@@ -1240,6 +1283,7 @@ func (e *c28eval) call(n *ast.CallExpr) c28val {
 		e.unk = append(e.unk, sub.unk...)
 		e.errs = append(e.errs, sub.errs...)
 		e.sinks = append(e.sinks, sub.sinks...)
+		e.visits = append(e.visits, sub.visits...)
 		out := c28val{}
 		for _, rv := range sub.rets {
 			out = c28union(out, sub.consume(rv))
@@ -1435,6 +1479,10 @@ func (e *c28eval) stmt(s ast.Stmt) {
 		e.stmt(s.Init)
 		e.stmt(s.Post)
 		e.stmt(s.Body)
+		if e.loops2 {
+			e.stmt(s.Post)
+			e.stmt(s.Body)
+		}
 	case *ast.RangeStmt:
 		xv := e.consume(e.expr(s.X))
 		if s.Key != nil {
